@@ -9,7 +9,9 @@ from ..prng import derive
 RULE = ('real os.fork() at every enumerated position relative to the parent\'s sessions (no connection yet; idle with a '
         'pooled connection; inside an open read-only session; inside an open write transaction; after flush, uncommitted; '
         'after db.disconnect(); after a mid-session commit; inside an immediate session) x process order (child first, '
-        'parent first, alternating, serialised through pipes) x forking thread (main / non-main) x 1-2 child sessions; '
+        'parent first, alternating, serialised through pipes) x forking thread (main / non-main) x 1-2 child sessions; plus, for the idle positions, a '
+        'child whose first own connect fails, a second Database with its own pooled connection that the child uses too, and a '
+        'child that forks again (the grandchild must not use the child\'s connection, the child goes on using its own); '
         'every proxy connection remembers the pid that opened it; oracle: no call on a connection from another pid, '
         'child and parent sessions complete (only cross-process "database is locked" is tolerated, timeout=0), rows '
         'committed by either side are visible afterwards. Every case is non-trivial; the grid is enumerated completely.')
@@ -32,6 +34,16 @@ def grid(seed):
     for pos, order, thread in itertools.product(('no_connection', 'pooled_idle', 'after_disconnect'), fork.ORDERS, (False, True)):
         yield {'engine': 'fork', 'isolate': True, 'position': pos, 'order': order, 'thread': thread, 'child_sessions': 2,
                'child_fault': True, 'seed': derive(seed, 'c36', i), 'timeout': 60}
+        i += 1
+    # two databases bound in the process, both with a pooled connection at the fork; the child uses both
+    for pos, order, thread in itertools.product(('no_connection', 'pooled_idle', 'after_disconnect'), fork.ORDERS, (False, True)):
+        yield {'engine': 'fork', 'isolate': True, 'position': pos, 'order': order, 'thread': thread, 'child_sessions': 2,
+               'second_db': True, 'seed': derive(seed, 'c36', i), 'timeout': 60}
+        i += 1
+    # the child forks again: the grandchild must not use the child's connection, the child goes on using it
+    for pos, second, thread in itertools.product(('no_connection', 'pooled_idle', 'after_disconnect'), (False, True), (False, True)):
+        yield {'engine': 'fork', 'isolate': True, 'position': pos, 'order': 'child_first', 'thread': thread,
+               'child_sessions': 1, 'grandchild': True, 'second_db': second, 'seed': derive(seed, 'c36', i), 'timeout': 60}
         i += 1
 
 
